@@ -296,15 +296,15 @@ def run(tier):
                        "'5.' followed by a non-digit is accepted as the real literal 5 by both tokenizers"]
     lexe = build.driver("dbg", "lex_drv", libs=("riddle", "smt", "json"))
     probes = {v: build.driver(v, "probe", libs=("solver", "core", "riddle", "smt", "json")) for v in ("dbg", "rel")}
-    nlex = 4000 if tier == "quick" else 60000
-    npin = 1600 if tier == "quick" else 8000
+    nlex = 4000 if tier == "quick" else 300000
+    npin = 1600 if tier == "quick" else 40000
     common.pmap(lex_work, [(lexe, s, 250) for s in range(0, nlex, 250)], res)
     common.pmap(prog_work, [(probes, s, 20) for s in range(0, npin, 20)], res)
     res.merge(syntax_work(probes["dbg"], 0))
     # (d) every generated (valid by construction) program of the other properties' families must be ACCEPTED: read() may only fail with the
     # unsolvable / inconsistent-problem outcome, never with another error
     from checks import c01, plan
-    nacc = 400 if tier == "quick" else 4000
+    nacc = 400 if tier == "quick" else 12000
     common.pmap(c01.cons_work, [(probes, s + 900000, 20, PID) for s in range(0, nacc, 20)], res)
     common.pmap(c01.cons_work, [(probes, s + 900000, 20, PID, "tp") for s in range(0, nacc // 2, 20)], res)
     for fam in plan.FAMILIES[PID]:
